@@ -10,7 +10,7 @@ export GOFLAGS=-mod=mod GOPROXY=off GOSUMDB=off GOTOOLCHAIN=local GOPHERJS_SKIP_
 ROOT="$(cd "$(dirname "$0")/.." && pwd)"
 WT="$(mktemp -d /tmp/verif-seed-XXXXXX)"
 git -C /repo worktree add -q --detach "$WT/repo" HEAD || exit 2
-cleanup() { git -C /repo worktree remove --force "$WT/repo" 2>/dev/null; rm -rf "$WT"; }
+cleanup() { git -C /repo worktree remove --force "$WT/repo" 2>/dev/null; git -C /repo worktree remove --force "$WT/orig" 2>/dev/null; rm -rf "$WT"; }
 trap cleanup EXIT
 git -C "$WT/repo" apply "$SRC/patch.diff" || { echo "patch does not apply"; exit 2; }
 (cd "$WT/repo" && go build ./... && go build -tags verif ./...) || { echo "SEED-REJECT: does not build"; exit 3; }
@@ -24,9 +24,17 @@ if [ -x "$SRC/demo/run.sh" ]; then
   # go.mod replace directives of the demo may point at the agent's worktree: redirect them
   for pass in patched orig; do
     rm -rf "$WT/demo"; cp -r "$SRC/demo" "$WT/demo"
-    tgt="$WT/repo"; [ $pass = orig ] && tgt=/repo
+    tgt="$WT/repo"
+    if [ $pass = orig ]; then
+      # the unchanged tree: a second scratch worktree (test-style demonstrations copy files into it)
+      git -C /repo worktree add -q --detach "$WT/orig" HEAD || exit 2
+      tgt="$WT/orig"
+    fi
     find "$WT/demo" -name go.mod -exec sed -i "s#=> /tmp/seed/[A-Za-z0-9_-]*/repo#=> $tgt#" {} \;
-    (cd "$WT/demo" && timeout 600 ./run.sh "$WT/gopherjs-$pass") > "$WT/demo-$pass.txt" 2>&1
+    arg="$WT/gopherjs-$pass"
+    # demonstrations that are Go tests / drivers inside the repository take the worktree, not a compiler binary
+    grep -q "go test\|go run" "$WT/demo/run.sh" && arg="$tgt"
+    (cd "$WT/demo" && timeout 1800 ./run.sh "$arg") 2>&1 | sed -E 's/\(?[0-9]+\.[0-9]+s\)?//g; s#/tmp/verif-seed-[A-Za-z0-9]*/(repo|orig)#REPO#g; s#^ok .*#ok#' > "$WT/demo-$pass.txt"
   done
   if cmp -s "$WT/demo-patched.txt" "$WT/demo-orig.txt"; then echo "SEED-REJECT: demo output identical with and without the change"; cat "$WT/demo-orig.txt" | head; exit 3; fi
   echo "demo differs (confirmed):"; diff "$WT/demo-orig.txt" "$WT/demo-patched.txt" | head -12
